@@ -267,28 +267,57 @@ def rule_r7_plain(ctx, prog, rule="R7"):
                        what="NaN not reported")
         ctx.ob(rule, "%s/has-partial_cmp" % name, n_pc >= 1, root.where(),
                "%d partial_cmp site(s)" % n_pc if n_pc else "anchor missing: no partial_cmp on elements", what="anchor missing")
-        # (ii) traversal over the whole receiver
+        # (ii) traversal over the whole receiver: the comparing scan must be a complete, fresh traversal of self – an
+        # iterator that was advanced before the scan (first element taken out as the seed) leaves a one-element array
+        # without any comparison, so a lone NaN is not reported
         trav_ok = False
         trav_detail = "no traversal of self found"
+        scans = []      # (body, bb, receiver expression, description)
+        advances = []   # (body, bb, receiver expression, callee)
         for b in grp:
             for bb, t in b.calls():
                 nm = callee_name(t)
-                if nm == "fold" and t["callee"].get("krate") == "ndarray":
-                    a0 = strip(b.call_arg_exprs(bb)[0])
+                kr = t["callee"].get("krate")
+                args = b.call_arg_exprs(bb)
+                if not args:
+                    continue
+                a0 = strip(args[0])
+                if nm == "fold" and kr == "ndarray":
                     if a0 == ("param", 1, "self"):
-                        trav_ok, trav_detail = True, "fold over the whole receiver"
+                        scans.append((b, bb, a0, "fold over the whole receiver"))
                     else:
                         trav_detail = "fold over `%s`, not over self" % fmt(a0)
-                if nm == "next":
-                    it = b.call_arg_exprs(bb)[0]
-                    rb, re_, chain, bad = producer_chain(prog, b, it)
+                    continue
+                if kr in ("core", "std", "alloc") and nm in ("next", "fold", "try_fold", "for_each", "try_for_each", "nth", "skip", "step_by", "take",
+                                                               "next_back", "advance_by", "skip_while", "take_while", "filter", "nth_back", "rev", "last"):
+                    rb, re_, chain, bad = producer_chain(prog, b, args[0])
+                    if strip(re_) != ("param", 1, "self"):
+                        continue
                     extra = [c for c in chain if c not in TRAVERSAL_OK]
-                    if strip(re_) == ("param", 1, "self") and not extra:
-                        trav_ok, trav_detail = True, "loop over %s of the whole receiver" % "→".join(reversed(chain))
-                    elif strip(re_) == ("param", 1, "self"):
+                    in_loop = t.get("target") is not None and bb in b.reachable_from(t["target"])
+                    if nm == "next" and in_loop:
+                        if extra:
+                            trav_detail = "the scan goes through `%s`: some elements (e.g. a NaN in first position) are never compared" % ",".join(extra)
+                            scans.append((b, bb, a0, None))
+                        else:
+                            scans.append((b, bb, a0, "loop over %s of the whole receiver" % "→".join(reversed(chain))))
+                    elif nm in ("fold", "try_fold", "for_each", "try_for_each"):
+                        if extra:
+                            trav_detail = "the scan goes through `%s`: some elements are never compared" % ",".join(extra)
+                            scans.append((b, bb, a0, None))
+                        else:
+                            scans.append((b, bb, a0, "%s over %s of the whole receiver" % (nm, "→".join(reversed(chain)))))
+                    elif nm != "last":
+                        advances.append((b, bb, a0, nm))
+        good = [sc for sc in scans if sc[3] is not None]
+        if good and len(good) == len(scans):
+            trav_ok, trav_detail = True, good[0][3]
+            for (sb, sbb, se, _d) in good:
+                for (ab, abb, ae, anm) in advances:
+                    if ab is sb and ae == se:
                         trav_ok = False
-                        trav_detail = "the scan goes through `%s`: some elements (e.g. a NaN in first position) are never compared" % ",".join(extra)
-                        break
+                        trav_detail = ("the iterator of the scan is advanced by `%s` before the scan: the element taken out is never the "
+                                       "subject of a comparison when it is the only one (a lone NaN is not reported)" % anm)
         ctx.ob(rule, "%s/whole-array" % name, trav_ok, root.where(), trav_detail, what="not every element is compared")
         # (iv) arg forms: the returned pattern and the running value are updated together from one indexed_iter item
         if name.startswith("arg"):
